@@ -2,7 +2,7 @@
     Only statements, each closed by [exact <lemma>] or by computation, with [Print Assumptions]. *)
 From Coq Require Import List ZArith NArith Bool Lia.
 From DH Require Import Lib.CheckLib Model.Store Model.Catalogue Proofs.StoreProofs Proofs.CatalogueProofs
-     Check.C19Check Proofs.C19CheckProofs.
+     Proofs.CatalogueInv Check.C19Check Proofs.C19CheckProofs Proofs.C19SpecLink.
 Import ListNotations.
 Open Scope Z_scope.
 
@@ -13,7 +13,7 @@ Open Scope Z_scope.
     repeated ids in the batch (F02a stores them twice, they count once), re-stored ids, skipped unchanged
     writes, ids known from other datasets or first seen as reference targets included. *)
 Theorem C19_batch_count : forall fl dm clk t ents d kn,
-  winv clk d -> clk < t -> incl (dids d) kn ->
+  winv clk d -> clk <= t -> incl (dids d) kn ->
   let '(d', kn', ni) := cbatch fl dm t ents d kn in
   d' = store_batch_ds fl dm t ents d
   /\ winv t d'
@@ -64,16 +64,53 @@ Theorem C19_agree_transfers_spec : forall fl c,
 Proof. exact agree_transfers_spec. Qed.
 Print Assumptions C19_agree_transfers_spec.
 
-(*  NOT PROVED (gap, named): the catalogue-level invariant over all histories of [cop]s,
-      C19_meta_items : forall ops, Forall wf_cop ops -> let k := run_cops fl_fixed ops in
-        forall n, (exists_ds k n = true -> exists i, read_meta k n = Some {| m_name := n; m_set := record's settings; m_items := i; m_del := false |}
-                                             /\ i = distinct_of k n)
-               /\ (exists_ds k n = false -> match read_meta k n with Some m => m_del m = true | None => True end),
-    i.e. preservation of the invariant by do_create / do_delete / do_rename / do_setpub / do_batch / do_txn
-    (core_store plumbing around the lemmas above).  What is proved is C19_batch_count / C19_items_dataset (the
-    history-dependent quantity), C19_meta_never_confused (no meta write dropped), and C19_agree_transfers_spec;
-    the plumbing is exercised by the correspondence run (model_spec_run under fl_fixed is evaluated on every
-    generated history by the examples below and by lib/props/c19.py's self-test). *)
+(** ... and at full strength for the fully repaired variants (F19c, F19d, F19e, F19b repaired; any store-core flags):
+    agreement of the implementation's observations with the model along a history - operations, forced
+    schedules, every snapshot - IMPLIES the executable spec on those observations (exactly one live meta entity per
+    existing name carrying name and settings, items = distinct ids = latest entities, GET /datasets/{name} agrees;
+    only deleted meta entities for other names). *)
+Theorem C19_agree_implies_spec : forall fl c, repaired fl -> agree fl c = true -> spec_ok c = true.
+Proof. exact agree_implies_spec. Qed.
+Print Assumptions C19_agree_implies_spec.
+
+Example C19_repaired_nonvacuous : repaired v_fixed /\ repaired (mkflags true true true true)
+  /\ cf_txn_pub fl_fixed = true /\ cf_rm_pub fl_fixed = true.
+Proof. repeat split. Qed.
+
+(** the model's own snapshot satisfies the spec in every reachable state of a repaired variant *)
+Theorem C19_model_snapshots_ok : forall fl ops names,
+  repaired fl -> snap_spec (predict (run_cops fl ops) names) = true.
+Proof.
+  intros fl ops names Hrep. destruct Hrep as (Hcc & Htp & Hrp & Hra).
+  apply (snap_spec_predict fl); [exact Hcc | now apply run_cops_inv].
+Qed.
+Print Assumptions C19_model_snapshots_ok.
+
+(** C19_meta + C19_items over ALL histories of create / delete / rename / re-create / public-namespace updates
+    (batch or transaction on core.Dataset) / batches / transactions - no well-formedness hypothesis on the
+    history at all (operations on unknown names, on core.Dataset, repeated names in a transaction are no-ops or
+    harmless in the model) - for every variant in which F19d and F19e are repaired, whatever the store-core flags
+    (write-time equality, duplicate mode): in the state after the history, for every name n,
+    * if the dataset exists: its meta entity is live, carries the name and exactly the record's settings, and its
+      items counter is the number of distinct entity ids in the dataset's change log (for core.Dataset itself when
+      F19c is repaired as well);
+    * otherwise (deleted, renamed away, never used): there is no meta entity for n or only a deleted one;
+    and core.Dataset holds nothing but meta entities, each stored under the id of the name it carries - so the live
+    meta entity of n is the ONLY live entity carrying that name. *)
+Theorem C19_meta_items : forall fl ops,
+  cf_txn_pub fl = true -> cf_rm_pub fl = true ->
+  let k := run_cops fl ops in
+  (forall n, name_ok fl k n)
+  /\ (forall id c, stored_latest (core k) id = Some c -> exists m, c = meta_content m /\ id = meta_uri (m_name m)).
+Proof. exact meta_items. Qed.
+Print Assumptions C19_meta_items.
+
+(** the invariant behind it (registry codes injective and below nextDatasetID, unused internal ids empty, counting
+    invariant of every dataset, latest pointer of core.Dataset = last version) holds in every reachable state *)
+Theorem C19_reachable_inv : forall fl ops,
+  cf_txn_pub fl = true -> cf_rm_pub fl = true -> cinv fl zero (run_cops fl ops).
+Proof. exact run_cops_inv. Qed.
+Print Assumptions C19_reachable_inv.
 
 (** ** concrete histories *)
 Definition cA : content := {| c_del := false; c_props := [(1001, {| pv_code := 1; pv_obj := false |})]; c_refs := []; c_len := 50 |}.
